@@ -91,8 +91,13 @@ def load_corpus(pid):
             d = json.load(open(path))
         except Exception:
             continue
-        out.append(Case("k" + os.path.basename(path)[:-5], d["line"].replace("RUN ID", "RUN k" + os.path.basename(path)[:-5], 1)
-                        if "ID" in d["line"].split(" ")[:2] else d["line"], d.get("meta", {}), True, d.get("tags", ())))
+        cid = "k" + "".join(ch for ch in os.path.basename(path)[:-5] if ch.isalnum())
+        line = d["line"]
+        if line.split(" ")[1] == "ID":
+            parts = line.split(" ")
+            parts[1] = cid
+            line = " ".join(parts)
+        out.append(Case(cid, line, d.get("meta", {}), True, d.get("tags", ())))
     return out
 
 
@@ -173,7 +178,13 @@ def run_check(chk, tier, replay=None):
             inconclusive += 1
             continue
         try:
-            why = chk.oracle(c, a)
+            if "corpus" in c.tags and "expect_outcome" in c.meta:
+                # corpus witnesses carry the documented result themselves
+                if a.outcome != c.meta["expect_outcome"] or a.stdout != c.meta["expect_stdout"].encode():
+                    why = "witness %s: documented (%r, %r), implementation (%r, %r)" % (
+                        c.meta.get("witness_of"), c.meta["expect_outcome"], c.meta["expect_stdout"][:80], a.outcome, a.stdout[:80])
+            else:
+                why = chk.oracle(c, a)
         except Exception as e:
             why = None
             lines_out.append("oracle exception on %s: %r" % (c.id, e))
